@@ -655,3 +655,81 @@ theorem reserved_run (cfg : Cfg) (perm : List Nat → List Nat) (evs : List Ev) 
         exact (ih _ _ _ _).trans (act_reserved he)
 
 end CohdlVerif.C11
+
+namespace CohdlVerif.C11
+
+/-- every cache entry holds the definition of the object it was made for AND that object still lives at the key
+    address; no two live objects share an address -/
+structure Heap.Ok (h : Heap) : Prop where
+  sound : ∀ e ∈ h.cache, e.2.2 = defOf e.2.1 ∧ (e.1, e.2.1) ∈ h.live
+  uniq : ∀ a f g, (a, f) ∈ h.live → (a, g) ∈ h.live → f = g
+
+theorem Heap.ok_empty : Heap.Ok Heap.empty :=
+  ⟨fun e he => by simp [Heap.empty] at he, fun a f g hf => by simp [Heap.empty] at hf⟩
+
+theorem Heap.ok_alloc {h h1 : Heap} {a f : Nat} (ok : h.Ok) (e : h.alloc a f = some h1) : h1.Ok := by
+  unfold Heap.alloc at e
+  split at e
+  · simp at e
+  · rename_i hfree
+    simp only [Option.some.injEq] at e
+    subst e
+    have hfree' : ∀ x, (a, x) ∉ h.live := by
+      intro x hx
+      apply hfree
+      simp only [List.any_eq_true, beq_iff_eq]
+      exact ⟨(a, x), hx, rfl⟩
+    refine ⟨fun e he => ⟨(ok.sound e he).1, List.mem_cons_of_mem _ (ok.sound e he).2⟩, ?_⟩
+    intro b x y hx hy
+    simp only [List.mem_cons, Prod.mk.injEq] at hx hy
+    rcases hx with ⟨rfl, rfl⟩ | hx <;> rcases hy with ⟨hb, rfl⟩ | hy
+    · rfl
+    · exact absurd hy (hfree' _)
+    · subst hb; exact absurd hx (hfree' _)
+    · exact ok.uniq b x y hx hy
+
+/-- with the reference held by the cache entry (`keep = true`) freeing never invalidates an entry -/
+theorem Heap.ok_free {h : Heap} (a : Nat) (ok : h.Ok) : (h.free true a).Ok := by
+  unfold Heap.free
+  by_cases hc : h.cache.any (fun e => e.1 == a) = true
+  · simp only [hc, Bool.and_self, if_true]; exact ok
+  · have hc' : ∀ e ∈ h.cache, e.1 ≠ a := by
+      intro e he heq
+      apply hc
+      simp only [List.any_eq_true, beq_iff_eq]
+      exact ⟨e, he, heq⟩
+    simp only [hc, Bool.and_false, Bool.false_eq_true, if_false]
+    refine ⟨fun e he => ⟨(ok.sound e he).1, ?_⟩, ?_⟩
+    · simp only [List.mem_filter, bne_iff_ne, ne_eq]
+      exact ⟨(ok.sound e he).2, hc' e he⟩
+    · intro b x y hx hy
+      simp only [List.mem_filter] at hx hy
+      exact ok.uniq b x y hx.1 hy.1
+
+/-- a lookup at the address of a live object answers with the definition of THAT object, hit or miss -/
+theorem Heap.lookup_live {h : Heap} {a f : Nat} (ok : h.Ok) (hl : (a, f) ∈ h.live) :
+    ∃ h1, h.lookup a = some (defOf f, h1) ∧ h1.Ok := by
+  unfold Heap.lookup
+  cases hf : h.live.find? (fun e => e.1 == a) with
+  | none =>
+    have := List.find?_eq_none.mp hf (a, f) hl
+    simp at this
+  | some obj =>
+    have hm := List.mem_of_find?_eq_some hf
+    have ha : obj.1 = a := by simpa using List.find?_some hf
+    have hobj : obj.2 = f := ok.uniq a obj.2 f (by rw [← ha]; exact hm) hl
+    cases hc : h.cache.find? (fun e => e.1 == a) with
+    | some e =>
+      have hem := List.mem_of_find?_eq_some hc
+      have hea : e.1 = a := by simpa using List.find?_some hc
+      have hs := ok.sound e hem
+      have : e.2.1 = f := ok.uniq a e.2.1 f (by rw [← hea]; exact hs.2) hl
+      exact ⟨h, by simp only [hs.1, this], ok⟩
+    | none =>
+      refine ⟨{ h with cache := (a, f, defOf f) :: h.cache }, by simp only [hobj], ?_, ok.uniq⟩
+      intro e he
+      rcases List.mem_cons.mp he with rfl | he
+      · exact ⟨rfl, hl⟩
+      · exact ok.sound e he
+
+end CohdlVerif.C11
